@@ -78,3 +78,4 @@ Example C05_ufo_example :
   lookup_value (sort_rules (kerning_pairs g1s g2s gl qc1 k)) [1%Z] [3%Z] = Q2Qc 7 /\
   ufo_kern g1s g2s k [1%Z] [2%Z] = Q2Qc (-50) /\ ufo_kern g1s g2s k [1%Z] [3%Z] = Q2Qc 7.
 Proof. vm_compute. repeat split; reflexivity. Qed.
+Print Assumptions C05_ufo_example.
